@@ -1,7 +1,9 @@
 (* C10 driver: replays a history of one client (callers, Send, Receive, Exit/Close, Abort, peer) through
    the extracted LTS of Model/CallLife.v.
 
-   input : <mask: 31|15> <armed flags, e.g. 0110> <op> <op> ...
+   input : <mask: 31|15|31old|15old> <armed flags, e.g. 0110> <op> <op> ...
+     (31, 15: the transports since 576bf91 and 8ffdf9e -- onExit always cancels, a store after Close hands the close error
+      to the caller; "old": the transports before)
      callers are numbered from 0 in the order of the flags; connections from 0 in dialling order;
      who = s<c> (Send of connection c) | r<c> (Receive) | a<j> (j-th Transport.Abort closer)
      B k        LBegin           G k  LGetConn  -> G:<c>:<idx>      D k  LDial -> D:<c>:<idx>      DF k LDialFail
@@ -41,7 +43,9 @@ let pc_token = function
 let run line =
   match split_ws line with
   | maskname :: flags :: ops ->
-    let g : CallLife.cfg = (if maskname = "15" then Mux.mask15 else Mux.mask31) in   (* cfg is a one-field record: extracted as its field *)
+    let old = String.length maskname > 2 in
+    let g = { CallLife.mask = (if String.sub maskname 0 2 = "15" then Mux.mask15 else Mux.mask31);
+              fix_cancel = not old; fix_store = not old } in
     let flags = if flags = "-" then "" else flags in
     let armed = Stdlib.List.init (String.length flags) (fun i -> flags.[i] = '1') in
     let st = ref (CallLife.init armed) in
